@@ -554,7 +554,7 @@ def c_alpha(rng, sysm, pool, o):
         if a in pool:
             pool.remove(a)
     return dict(text="\n".join(lines), vtype="scalar", dim=1, tf=False, atoms=atoms, first=first, nres=nres,
-                index=index, segid=seg)
+                index=index, segid=seg, variant=v)
 
 
 def c_dihedralpc(rng, sysm, pool, o):
@@ -588,3 +588,365 @@ def make_extra_colvar(rng, sysm, pool, name, ctype, opts=None, extra_lines=(), c
     return dict(name=name, text=colvar_block(name, [(c, coeff, exp)], extra_lines), comps=[c], vtype=c["vtype"],
                 dim=c["dim"], period=None, tf=False, ctype=ctype, opts=opts or {}, coeff=coeff, exp=exp,
                 files=c.get("files", {}))
+
+
+# ---------------------------------------------------------------------------------------------
+# composite components, used by C01 only (deliberately NOT part of COMPONENTS): path variables in
+# Cartesian space (reference frames in XYZ files), path variables in CV space (pathFile),
+# linearCombination and neuralNetwork (sub-components inside the component block).
+#
+# A template returns the usual dict plus
+#   files   = {file name: content}, to be written into the working directory of the run;
+#   prep    = None, or {"text": configuration of a preliminary run in which every sub-component is a
+#             colvar of its own (named like the sub-component), "finalize": f(values)} where values
+#             maps sub-component name -> list of floats at the base geometry; finalize() completes
+#             "text" and "files" (path rows / network weights are laid out around the current point
+#             in CV space).
+# ---------------------------------------------------------------------------------------------
+
+def xyz_text(rows):
+    return "%d\ngenerated\n" % len(rows) + "".join("C %s %s %s\n" % (fnum(r[0]), fnum(r[1]), fnum(r[2])) for r in rows)
+
+
+def rigid_motion(rng, pts, tamp=1.0):
+    R = quat_to_matrix(random_quaternion(rng))
+    t = [rng.uniform(-tamp, tamp) for _ in range(3)]
+    return [[sum(R[i][j] * p[j] for j in range(3)) + t[i] for i in range(3)] for p in pts]
+
+
+def path_position(rng, K):
+    """position t0 along a path of K frames (in frame units), away from the points where the geometric path variables
+    switch frames (closest frame changes at half-integers; second/third closest swap at integers)"""
+    while True:
+        t0 = rng.randint(0, K - 1) + rng.choice([-1, 1]) * rng.uniform(0.15, 0.35)
+        if 0.0 < t0 < K - 1:
+            return t0
+
+
+def c_cartpath(kind):
+    """gspath / gzpath / aspath / azpath { atoms, [fittingAtoms], refPositionsFile1..K, options }"""
+    def f(rng, sysm, pool, o):
+        v = o.get("variant", rng.choice(["default", "default", "fitting", "neighbour", "third"]))
+        g = pick_atoms(rng, pool, rng.randint(4, 7))
+        if rng.random() < 0.5:
+            g = sorted(g)
+        fitg = pick_atoms(rng, pool, rng.randint(4, 5)) if v == "fitting" else None
+        K = rng.randint(3, 5)
+        t0 = path_position(rng, K)
+        n = sysm["natoms"]
+        X = sysm["pos"]
+        D = [[rng.uniform(-0.8, 0.8) for _ in range(3)] for _ in range(n)]        # tangent of the path
+        C = [[rng.uniform(-0.06, 0.06) for _ in range(3)] for _ in range(n)]      # curvature
+        off = [[rng.uniform(-0.12, 0.12) for _ in range(3)] for _ in range(n)]    # the current point is off the path
+        whole = (fitg is not None) or rng.random() < 0.5    # whole-system file (row = atom number) or group-size file
+        files = {}
+        frames = []
+        lam = None
+        flags = {}
+        lines = ["  %s {" % kind, group_block("atoms", g)]
+        if fitg:
+            lines.append(group_block("fittingAtoms", fitg))
+        for k in range(K):
+            s = k - t0
+            P = [[X[a][d] + off[a][d] + s * D[a][d] + s * s * C[a][d] for d in range(3)] for a in range(n)]
+            P = rigid_motion(rng, P)
+            frames.append(P)
+            rows = P if whole else [P[a - 1] for a in sorted(g)]
+            fn = "frame%d.xyz" % (k + 1)
+            files[fn] = xyz_text(rows)
+            lines.append("    refPositionsFile%d %s" % (k + 1, fn))
+        if kind in ("gspath", "gzpath"):
+            if v == "neighbour":
+                lines.append("    useSecondClosestFrame off")
+                flags["second"] = False
+            if v == "third":
+                lines.append("    useThirdClosestFrame on")
+                flags["third"] = True
+            if kind == "gzpath" and rng.random() < 0.4:
+                lines.append("    useZsquare on")
+                flags["zsquare"] = True
+        else:
+            if rng.random() < 0.6:
+                # about the inverse mean square displacement between successive frames (the documented default)
+                lam = rng.uniform(0.5, 3.0)
+                lines.append("    lambda %s" % fnum(lam))
+        lines.append("  }")
+        return dict(text="\n".join(lines), vtype="scalar", dim=1, tf=False, atoms=g + (fitg or []), files=files,
+                    variant=v, t0=t0, nframes=K, prep=None, group=g, fitgroup=fitg, frames=frames, lam=lam, flags=flags)
+    return f
+
+
+# scalar sub-components with explicit gradients / vector sub-components (forces through apply_force of the sub-component)
+SUB_SCALAR = ["distance", "angle", "dihedral", "distanceZ", "distanceXY", "gyration", "coordNum", "rmsd", "inertia", "hBond"]
+SUB_VECTOR = ["distanceVec", "distancePairs", "cartesian"]
+SUB_POLY = ["distance", "distanceZ", "distanceXY", "gyration", "coordNum", "rmsd", "hBond"]
+# typical variation of the raw value over a displacement of a few tenths of a length unit
+SUB_SCALE = {"distance": 1.0, "angle": 25.0, "dihedral": 40.0, "distanceZ": 1.0, "distanceXY": 1.0, "gyration": 0.5,
+             "coordNum": 0.3, "rmsd": 0.5, "inertia": 10.0, "hBond": 0.2, "distanceVec": 1.0, "distancePairs": 1.0,
+             "cartesian": 1.0}
+
+
+def nest(text, name, coeff=None, exp=None, extra=()):
+    """re-indent a component block by one level and give it a name (sub-components are ordered by name)"""
+    first, rest = text.split("\n", 1)
+    ins = ["    name %s" % name]
+    if coeff is not None:
+        ins.append("    componentCoeff %s" % fnum(coeff))
+    if exp is not None:
+        ins.append("    componentExp %d" % exp)
+    ins += ["    " + e for e in extra]
+    return "\n".join("  " + l for l in [first] + ins + rest.split("\n"))
+
+
+def make_subs(rng, sysm, pool, kinds, poly=True):
+    """sub-components s001, s002, ...; each draws its atoms from its own copy of the pool, so sub-components may share
+    atoms (their forces then add up on the shared atoms)"""
+    subs = []
+    for i, kd in enumerate(kinds):
+        p = list(pool)
+        c = COMPONENTS[kd](rng, sysm, p, {})
+        c["ctype"] = kd
+        c["name"] = "s%03d" % (i + 1)
+        c["coeff"] = c["exp"] = None
+        # no polynomial on a periodic sub-component (coefficient times an angle is wrapped as if it were the angle)
+        if poly and kd != "dihedral":
+            r = rng.random()
+            if r < 0.5:
+                c["coeff"] = round(rng.uniform(-2, 2), 3) or 1.5
+            # exponents only where the raw value is O(1-10): powers of angles in degrees or of moments of inertia give
+            # values of 1e5-1e7, whose differences a path variable cannot resolve to the accuracy asked by C01
+            if r < 0.25 and kd in SUB_POLY:
+                c["exp"] = rng.choice([2, 3])
+        c["raw_text"] = c["text"]
+        c["text"] = nest(c["raw_text"], c["name"], c["coeff"], c["exp"])
+        subs.append(c)
+    return subs
+
+
+def subs_prep_text(subs):
+    """every sub-component as a colvar of its own, without coefficient / exponent (raw values)"""
+    return "\n".join("colvar {\n  name %s\n%s\n}" % (c["name"], c["raw_text"]) for c in subs)
+
+
+def sub_poly(c, raw):
+    """(values of coeff * x^exp, |d/dx| of it) for the raw values of a sub-component"""
+    co = 1.0 if c["coeff"] is None else c["coeff"]
+    ex = 1 if c["exp"] is None else c["exp"]
+    vals = [co * x ** ex for x in raw]
+    der = [abs(co * ex * x ** (ex - 1)) for x in raw]
+    return vals, der
+
+
+def _composite(kind, lines_head, subs, vtype="scalar", dim=1, **kw):
+    atoms = sorted(set(a for c in subs for a in c["atoms"]))
+    d = dict(text=None, vtype=vtype, dim=dim, tf=False, atoms=atoms, subs=subs, files={}, prep=None)
+    d.update(kw)
+
+    def build(extra_lines=()):
+        d["text"] = "\n".join(["  %s {" % kind] + list(lines_head) + list(extra_lines) + [c["text"] for c in subs] + ["  }"])
+    d["_build"] = build
+    build()
+    return d
+
+
+SUB_ANGULAR = ["angle", "dihedral"]
+SUB_LENGTH = [k for k in SUB_SCALAR if k not in SUB_ANGULAR]
+
+
+def c_cvpath(kind):
+    """gspathCV / gzpathCV / aspathCV / azpathCV { pathFile, options, sub-components }.
+
+    The dimensions of the CV space are given comparable scales, as a user would: either all sub-components are angles
+    in degrees (no coefficients; a coefficient on a periodic angle is not meaningful), or each gets the componentCoeff
+    that brings its typical variation to O(1).  With scales differing by orders of magnitude the space is effectively
+    one-dimensional, every point lies on the path to within rounding, and z = sqrt(|v1|^2 + ... ) is a difference of
+    large numbers whose finite differences are noise (seen as a false alarm at z = 1e-3 |v1|)."""
+    def f(rng, sysm, pool, o):
+        v = o.get("variant", rng.choice(["scalar", "scalar", "mixed", "neighbour", "third"]))
+        nsub = rng.randint(2, 3)
+        angular = rng.random() < 0.3 and v != "mixed"
+        if angular:
+            kinds = [rng.choice(SUB_ANGULAR) for _ in range(nsub)]
+        else:
+            kinds = [rng.choice(SUB_LENGTH) for _ in range(nsub)]
+            if v == "mixed":
+                kinds[rng.randrange(nsub)] = rng.choice(SUB_VECTOR)
+        subs = make_subs(rng, sysm, pool, kinds, poly=not angular)   # coefficients are re-balanced in finalize()
+        K = rng.randint(3, 5)
+        t0 = path_position(rng, K)
+        head = ["    pathFile path.txt"]
+        geometric = kind in ("gspathCV", "gzpathCV")
+        if geometric:
+            if v == "neighbour":
+                head.append("    useSecondClosestFrame off")
+            if v == "third":
+                head.append("    useThirdClosestFrame on")
+            if kind == "gzpathCV" and rng.random() < 0.4:
+                head.append("    useZsquare on")
+        weights = None
+        if not geometric and rng.random() < 0.5:
+            weights = [round(rng.uniform(0.5, 2.0), 3) for _ in subs]
+            head.append("    weights { %s }" % " ".join(fnum(w) for w in weights))
+        d = _composite(kind, head, subs, variant=v, t0=t0, nframes=K, family="angular" if angular else "balanced")
+        lam_factor = rng.uniform(0.5, 3.0) if (not geometric and rng.random() < 0.6) else None
+        prng = rng.__class__(rng.getrandbits(48))
+
+        def finalize(values):
+            cur, S, wj = [], [], []
+            for i, c in enumerate(subs):
+                raw = values[c["name"]]
+                if not angular:
+                    ex = c["exp"]
+                    if ex is not None and min(abs(x) for x in raw) ** (ex - 1) < 0.05:
+                        ex = c["exp"] = None            # x^exp would be flat at the current point
+                    dfac = 1.0 if ex is None else abs(ex * raw[0] ** (ex - 1))
+                    T = prng.uniform(0.5, 2.0)
+                    c["coeff"] = float("%.4g" % (prng.choice([-1, 1]) * T / (SUB_SCALE[c["ctype"]] * dfac)))
+                    c["text"] = nest(c["raw_text"], c["name"], c["coeff"], c["exp"])
+                vals, der = sub_poly(c, raw)
+                for x, dx in zip(vals, der):
+                    cur.append(x)
+                    S.append(SUB_SCALE[c["ctype"]] * max(dx, 1e-3))
+                    wj.append(1.0 if weights is None else weights[i])
+            n = len(cur)
+            step = [prng.choice([-1, 1]) * prng.uniform(0.4, 1.0) * S[j] for j in range(n)]
+            curv = [prng.uniform(-0.04, 0.04) * S[j] for j in range(n)]
+            # the current point is off the path: offset perpendicular to the tangent, 15-40 % of the frame spacing
+            r = [prng.gauss(0, 1) * S[j] for j in range(n)]
+            ss = sum(x * x for x in step)
+            pr = sum(a * b for a, b in zip(r, step)) / ss
+            r = [a - pr * b for a, b in zip(r, step)]
+            rn = math.sqrt(sum(x * x for x in r)) or 1.0
+            amp = prng.uniform(0.15, 0.4) * math.sqrt(ss) / rn
+            offp = [amp * x for x in r]
+            rows = []
+            for k in range(K):
+                sk = k - t0
+                rows.append([cur[j] + offp[j] + sk * step[j] + sk * sk * curv[j] for j in range(n)])
+            d["files"]["path.txt"] = "".join(" ".join(fnum(x) for x in rw) + "\n" for rw in rows)
+            extra = []
+            if lam_factor is not None:
+                msd = sum((wj[j] * step[j]) ** 2 for j in range(n))
+                extra.append("    lambda %s" % fnum(lam_factor / msd))
+            d["_build"](extra)
+
+        d["prep"] = {"text": subs_prep_text(subs), "finalize": finalize}
+        return d
+    return f
+
+
+def c_linear_combination(rng, sysm, pool, o):
+    """linearCombination { sub-components with componentCoeff / componentExp }: scalar, or vector-valued when every
+    sub-component has the same vector type"""
+    v = o.get("variant", rng.choice(["scalar", "scalar", "vec3", "pairs"]))
+    if v == "scalar":
+        subs = make_subs(rng, sysm, pool, [rng.choice(SUB_SCALAR) for _ in range(rng.randint(2, 3))])
+        return _composite("linearCombination", [], subs, variant=v)
+    if v == "vec3":
+        subs = make_subs(rng, sysm, pool, ["distanceVec", "distanceVec"])
+        return _composite("linearCombination", [], subs, vtype="vec3", dim=3, variant=v)
+    # two distancePairs blocks of equal dimension
+    subs = []
+    for i in range(2):
+        p = list(pool)
+        g1, g2 = pick_atoms(rng, p, 2), pick_atoms(rng, p, 2)
+        raw = "  distancePairs {\n%s\n%s\n  }" % (group_block("group1", g1), group_block("group2", g2))
+        co = round(rng.uniform(-2, 2), 3) or 1.5
+        subs.append(dict(text=nest(raw, "s%03d" % (i + 1), co), raw_text=raw, ctype="distancePairs", name="s%03d" % (i + 1),
+                         coeff=co, exp=None, atoms=g1 + g2, vtype="vector", dim=4))
+    return _composite("linearCombination", [], subs, vtype="vector", dim=4, variant=v)
+
+
+NN_ACTIVATIONS = ["tanh", "sigmoid", "linear", "elu", "relu", "lrelu100"]
+
+
+def c_neural_network(rng, sysm, pool, o):
+    """neuralNetwork { output_component, layerN_WeightsFile / _BiasesFile / _activation, scalar sub-components }"""
+    nin = rng.randint(2, 3)
+    subs = make_subs(rng, sysm, pool, [rng.choice(SUB_SCALAR) for _ in range(nin)])
+    nlayers = rng.randint(1, 3)
+    sizes = [nin] + [rng.randint(2, 4) for _ in range(nlayers - 1)] + [rng.randint(1, 2)]
+    acts = [rng.choice(NN_ACTIVATIONS[:4]) if rng.random() < 0.8 else rng.choice(NN_ACTIVATIONS[4:]) for _ in range(nlayers)]
+    out = rng.randrange(sizes[-1])
+    head = ["    output_component %d" % out]
+    for l in range(nlayers):
+        head += ["    layer%d_WeightsFile nn_w%d.txt" % (l + 1, l + 1), "    layer%d_BiasesFile nn_b%d.txt" % (l + 1, l + 1),
+                 "    layer%d_activation %s" % (l + 1, acts[l])]
+    d = _composite("neuralNetwork", head, subs, layers=sizes, activations=acts, variant="%dlayer" % nlayers)
+    prng = rng.__class__(rng.getrandbits(48))
+
+    def finalize(values):
+        cur = [sub_poly(c, values[c["name"]])[0][0] for c in subs]
+        for l in range(nlayers):
+            W = [[prng.uniform(-1.0, 1.0) for _ in range(sizes[l])] for _ in range(sizes[l + 1])]
+            if l == 0:
+                # inputs of very different magnitudes (distances, angles in degrees): keep the first layer out of saturation
+                W = [[w / max(1.0, abs(cur[j])) for j, w in enumerate(row)] for row in W]
+            b = [prng.uniform(-0.5, 0.5) for _ in range(sizes[l + 1])]
+            d["files"]["nn_w%d.txt" % (l + 1)] = "".join(" ".join(fnum(w) for w in row) + "\n" for row in W)
+            d["files"]["nn_b%d.txt" % (l + 1)] = "".join(fnum(x) + "\n" for x in b)
+        d["_build"]()
+
+    d["prep"] = {"text": subs_prep_text(subs), "finalize": finalize}
+    return d
+
+
+def _named(fn):
+    def f(rng, sysm, pool, o):
+        d = fn(rng, sysm, pool, o)
+        d.setdefault("prep", None)
+        d.setdefault("files", {})
+        return d
+    return f
+
+
+C01_EXTRA_COMPONENTS = {
+    "alpha": _named(c_alpha),
+    "dihedralPC": _named(c_dihedralpc),
+    "gspath": c_cartpath("gspath"),
+    "gzpath": c_cartpath("gzpath"),
+    "aspath": c_cartpath("aspath"),
+    "azpath": c_cartpath("azpath"),
+    "gspathCV": c_cvpath("gspathCV"),
+    "gzpathCV": c_cvpath("gzpathCV"),
+    "aspathCV": c_cvpath("aspathCV"),
+    "azpathCV": c_cvpath("azpathCV"),
+    "linearCombination": c_linear_combination,
+    "neuralNetwork": c_neural_network,
+}
+
+
+# template variants, cycled by C01 so that every quick run sees each of them
+C01_EXTRA_VARIANTS = {
+    "alpha": ["default", "params", "angles", "hbonds"],
+    "gspath": ["default", "fitting", "neighbour", "third"],
+    "gzpath": ["default", "fitting", "neighbour", "third"],
+    "aspath": ["default", "fitting"],
+    "azpath": ["default", "fitting"],
+    "gspathCV": ["scalar", "mixed", "neighbour", "third"],
+    "gzpathCV": ["scalar", "mixed", "neighbour", "third"],
+    "aspathCV": ["scalar", "mixed"],
+    "azpathCV": ["scalar", "mixed"],
+    "linearCombination": ["scalar", "vec3", "scalar", "pairs"],
+}
+
+
+def make_c01_colvar(rng, sysm, pool, name, ctype, opts=None, extra_lines=(), coeff=None, exp=None):
+    """like make_colvar() for C01_EXTRA_COMPONENTS.  If the component needs a preliminary run, cv["prep"]["text"] is its
+    configuration and cv["prep"]["finalize"](values) completes cv["text"] and cv["files"]."""
+    c = C01_EXTRA_COMPONENTS[ctype](rng, sysm, pool, opts or {})
+    c["ctype"] = ctype
+    cv = dict(name=name, text=None, comps=[c], vtype=c["vtype"], dim=c["dim"], period=None, tf=False, ctype=ctype,
+              opts=opts or {}, coeff=coeff, exp=exp, files=c["files"], prep=None, variant=c.get("variant"))
+
+    def build():
+        cv["text"] = colvar_block(name, [(c, coeff, exp)], extra_lines)
+    build()
+    if c.get("prep"):
+        inner = c["prep"]["finalize"]
+
+        def finalize(values):
+            inner(values)
+            build()
+        cv["prep"] = {"text": c["prep"]["text"], "finalize": finalize}
+    return cv
